@@ -132,7 +132,7 @@ type scn struct {
 	} `json:"transport"`
 
 	R struct {
-		Mode      int  `json:"mode"` // 0 read all 1 read k bytes 2 read none
+		Mode      int  `json:"mode"` // 0 read all 1 read k bytes 2 read none 3 io.Copy into a sink that fails after k bytes
 		K         int  `json:"k"`
 		Buf       int  `json:"buf"`
 		Close     bool `json:"close"`
@@ -233,7 +233,7 @@ func generate(t *kernel.Tape) *scn {
 	s.T.BodyZero = t.Choose(3, "bzero")
 	s.T.BodyWithData = t.Bool(2, "bwithdata")
 	s.T.DeclareLen = t.Bool(2, "declare")
-	s.R.Mode = t.Weighted("reader-mode", 4, 2, 1)
+	s.R.Mode = t.Weighted("reader-mode", 4, 2, 1, 1)
 	s.R.K = t.Choose(s.T.BodyLen+2, "reader-k")
 	s.R.Buf = []int{512, 1, 7, 4096}[t.Choose(4, "reader-buf")]
 	if s.T.BodyLen > 100000 {
@@ -242,6 +242,10 @@ func generate(t *kernel.Tape) *scn {
 	s.R.Close = t.Bool(2, "reader-close")
 	s.R.Propagate = !t.Bool(4, "reader-swallow")
 	s.R.Fail = t.Bool(8, "reader-fail")
+	if s.R.Mode == 3 {
+		// the consumer-side fault: the reader copies the body into a sink of its own that gives up, and says so
+		s.R.Fail = true
+	}
 	s.Auth = t.Weighted("auth", 3, 2)
 	s.AuthGetBody = t.Weighted("getbody", 2, 2, 1)
 	// exactly zero, one or two fault placements
@@ -464,6 +468,16 @@ func (w *world) ReadResponse(resp runtime.ClientResponse, _ runtime.Consumer) (a
 		limit = r.K
 	case 2:
 		limit = 0
+	}
+	if r.Mode == 3 {
+		sink := &failingSink{left: r.K}
+		if _, err := io.Copy(sink, body); err != nil && err != errSinkFull {
+			w.readerSawErr = err
+		}
+		if sink.failed {
+			w.env.Fault("reader-sink-fails-midway")
+		}
+		got, limit = sink.got, 0
 	}
 	for limit < 0 || len(got) < limit {
 		b := buf
@@ -812,6 +826,28 @@ func (prop) Run(t *testing.T, tape *kernel.Tape, sc kernel.Scenario) *kernel.Res
 	}
 	res.FromEnv(env)
 	return res
+}
+
+// failingSink accepts left bytes and then fails every write: a full disk under the caller's own destination.
+type failingSink struct {
+	left   int
+	got    []byte
+	failed bool
+}
+
+var errSinkFull = &kernel.InjectedError{What: "the reader's own sink is full"}
+
+func (f *failingSink) Write(p []byte) (int, error) {
+	if len(p) > f.left {
+		n := f.left
+		f.got = append(f.got, p[:n]...)
+		f.left = 0
+		f.failed = true
+		return n, errSinkFull
+	}
+	f.got = append(f.got, p...)
+	f.left -= len(p)
+	return len(p), nil
 }
 
 func debugDumpFault(b *kernel.Stream) bool {
